@@ -902,8 +902,29 @@ func (g *fgen) stmt(w *fw, nest int, inLoop bool, ret string) {
 			g.class("shadow:local")
 		} else if len(g.globals) > 0 && !g.is("shadow.module-scope") {
 			nm := g.globals[g.intn(len(g.globals), "shg")]
+			// prefer a module-scope value of type ty: its shadowing declaration can then be
+			// initialised from the very name it shadows (let x = x; var x = x;)
+			var same []string
+			for _, v := range vs {
+				if isIdent(v.expr) && g.isGlobalName(v.expr) && !g.hiddenIn(v.expr) {
+					same = append(same, v.expr)
+				}
+			}
+			self := false
+			if len(same) > 0 && g.chance(60, "shself") {
+				nm, self = same[g.intn(len(same), "shsn")], true
+			}
 			if !g.hiddenIn(nm) {
-				w.line("let %s = %s;", nm, g.expr(ty, 2).expr)
+				kw := "let"
+				if g.chance(50, "shvar") {
+					kw = "var"
+				}
+				if self {
+					g.class("shadow:module-scope:init-reads-shadowed-name")
+					w.line("%s %s = %s;", kw, nm, nm)
+				} else {
+					w.line("%s %s = %s;", kw, nm, g.expr(ty, 2).expr)
+				}
 				g.hidden = append(g.hidden, nm)
 				g.addVal(ty, nm, true)
 				g.class("shadow:module-scope")
